@@ -112,6 +112,21 @@ def run_cli(argv):
     return buf.getvalue()
 
 
+def parse_cell(cell):
+    """a number or a dict literal; infinities and NaN (gamma with a zero expected disorder) are numbers too"""
+    try:
+        return float(cell)
+    except ValueError:
+        pass
+    try:
+        return ast.literal_eval(cell)
+    except ValueError:
+        import re
+        if re.fullmatch(r"[\s\w'\"{}:,.+\-]*", cell) and "__" not in cell:
+            return eval(cell, {"__builtins__": {}}, {"inf": math.inf, "nan": math.nan})   # only reached for dicts holding inf / nan
+        raise
+
+
 def same(a, b):
     if isinstance(a, float) and isinstance(b, float) and math.isnan(a) and math.isnan(b):
         return True
@@ -169,7 +184,7 @@ def check(case):
                 r = {}
                 for name, cell in zip(header[1:], row[1:]):
                     try:
-                        r[name] = ast.literal_eval(cell)
+                        r[name] = parse_cell(cell)
                     except Exception as e:
                         raise Violation("csv-report:cell-not-a-literal", f"column {name!r}: {cell!r} ({type(e).__name__})")
                 got.append(r)
